@@ -254,6 +254,12 @@ func monitorC13(c *Ctx, h *SHistory) {
 			c.Violate(class("delivery-during-teardown"), fmt.Sprintf("the teardown itself produced %s", o.Kind), rep)
 		}
 	}
+	if lo.GateStuck {
+		c.Violate(class("gate-not-released"), "a document waiting at the rollback-mitigation gate of its observer was still waiting a second after Start() returned", rep)
+	}
+	if lo.Gated {
+		c.Count("close-with-document-at-gate")
+	}
 	if lo.PingsLater != lo.PingsAtReturn {
 		c.Violate(class("health-check-still-polling"), fmt.Sprintf("%d Ping calls in the 40 ms after Start() returned", lo.PingsLater-lo.PingsAtReturn), rep)
 	}
